@@ -242,6 +242,12 @@ class Canon:
         if k == "pow" and e[2] == ("num", 2.0):
             a = self.x(e[1])
             return None if a is None else f"^2 {a}"
+        if k == "neg":
+            a = self.x(e[1])
+            return None if a is None else f"- n {f2hex(0.0)} {a}"
+        if k == "sum":      # a sum in a position where the generator never has one: printed for the semantic comparison
+            s = self.ts(e[1])
+            return None if s is None else "S " + s
         return None
 
     def t(self, e):
@@ -367,6 +373,9 @@ def _rd_x(tk, i):
     if k == "^2":
         a, i = _rd_x(tk, i + 1)
         return ("pow", a, ("num", 2.0)), i
+    if k == "S":
+        l, i = _rd_ts(tk, i + 1)
+        return ("sum", l), i
     raise ValueError("bad expression token " + k)
 
 
@@ -431,9 +440,10 @@ def _vars_of(e, acc):
 
 
 def rows_same_meaning(a: str, b: str, rng) -> bool:
-    """do two printed rows denote the same function of the variables?  (used only when they are not the same tree: an
-    algebraically equivalent way of writing an equation / objective term must not count as a difference.)  Objective
-    terms: equal values; relations: same comparison and equal `lhs - rhs`, for `==` up to sign; at 4 random points."""
+    """do two printed rows denote the same constraint / objective term?  (used only when they are not the same tree: an
+    algebraically equivalent way of writing a row must not count as a difference.)  Objective terms: equal values at 4
+    random points.  Relations: same comparison and `lhs - rhs` of one a positive constant multiple of the other's (any
+    non-zero multiple for `==`) at those points."""
     try:
         ta, tb = row_tree(a), row_tree(b)
     except (ValueError, IndexError):
@@ -444,7 +454,7 @@ def rows_same_meaning(a: str, b: str, rng) -> bool:
     for t in (ta, tb):
         for e in t[1:]:
             _vars_of(e, names)
-    signs = set()
+    pts = []
     for _ in range(4):
         val = {n: rng.uniform(0.05, 4.0) for n in sorted(names)}
         try:
@@ -455,11 +465,40 @@ def rows_same_meaning(a: str, b: str, rng) -> bool:
                 fb = evaluate(tb[1], val) - evaluate(tb[2], val)
         except (ZeroDivisionError, OverflowError, KeyError):
             return False
-        tol = 1e-9 * max(1.0, abs(fa), abs(fb))
-        if abs(fa - fb) <= tol:
-            signs.add(1)
-        elif ta[0] == "EQ" and abs(fa + fb) <= tol:
-            signs.add(-1)
-        else:
-            return False
-    return len(signs) == 1 or ta[0] == "O"
+        pts.append((fa, fb))
+    close = lambda x, y: abs(x - y) <= 1e-9 * max(1.0, abs(x), abs(y))
+    if ta[0] == "O":
+        return all(close(fa, fb) for fa, fb in pts)
+    big = max(pts, key=lambda p: abs(p[1]))
+    if abs(big[1]) < 1e-12:
+        return all(abs(fa) < 1e-9 for fa, _fb in pts)
+    lam = big[0] / big[1]
+    if not (1e-9 < abs(lam) < 1e9) or (lam < 0 and ta[0] != "EQ"):
+        return False
+    return all(close(fa, lam * fb) for fa, fb in pts)
+
+
+def self_test() -> None:
+    """the semantic comparison must not swallow a real difference (wrong coefficient, wrong weight, wrong comparison) and must
+    accept plain algebraic rewrites; raises (harness infrastructure error) otherwise."""
+    import random
+    h, r = f2hex, random.Random(7)
+    same = [(f"E EQ V {h(3.0)} 2 v x:A v x:B ; v ex:0", f"E EQ S 2 v x:A v x:B ; G * n {h(3.0)} v ex:0"),
+            (f"O K {h(0.7)} 2 v d:A v d:B", f"O G * S 2 v d:A v d:B n {h(0.7)}"),
+            (f"E LE S 2 v a:A:0 v a:B:0 ; n {h(1.0)}", f"E LE G - S 2 v a:A:0 v a:B:0 n {h(1.0)} ; n {h(0.0)}"),
+            (f"O G / * n {h(0.6)} + ^2 - v x:A v x:B ^2 - v y:A v y:B n {h(2.0)}",
+             f"O G * n {h(0.3)} + ^2 - v x:B v x:A ^2 - v y:A v y:B")]
+    differ = [(f"E EQ V {h(3.0)} 2 v x:A v x:B ; v ex:0", f"E EQ V {h(2.0)} 2 v x:A v x:B ; v ex:0"),
+              (f"E EQ V {h(3.0)} 2 v x:A v x:B ; v ex:0", f"E EQ V {h(3.0)} 2 v x:A v y:B ; v ex:0"),
+              (f"O K {h(0.7)} 2 v d:A v d:B", f"O K {h(0.3)} 2 v d:A v d:B"),
+              (f"O K {h(0.7)} 2 v d:A v d:B", f"O K {h(0.7)} 1 v d:A"),
+              (f"E LE S 2 v a:A:0 v a:B:0 ; n {h(1.0)}", f"E GE S 2 v a:A:0 v a:B:0 ; n {h(1.0)}"),
+              (f"E LE S 2 v a:A:0 v a:B:0 ; n {h(1.0)}", f"E LE S 2 v a:A:0 v a:B:0 ; n {h(1.5)}"),
+              (f"O G / * n {h(0.6)} + ^2 - v x:A v x:B ^2 - v y:A v y:B n {h(2.0)}",
+               f"O G * n {h(0.6)} + ^2 - v x:A v x:B ^2 - v y:A v y:B")]
+    for a, b in same:
+        if not rows_same_meaning(a, b, r):
+            raise RuntimeError("glb_post.self_test: equivalent rows reported different: " + a + " / " + b)
+    for a, b in differ:
+        if rows_same_meaning(a, b, r):
+            raise RuntimeError("glb_post.self_test: different rows reported equivalent: " + a + " / " + b)
